@@ -287,3 +287,149 @@ def m_dct(ex, st, args, kwargs, node):
          '2 sum_{0<i<n-1} x_i cos(pi k i / (n-1)); same shape; requires n >= 2 (otherwise scipy raises)')
     ex.oblige(st, 'call-pre', 'dct-type-1-needs-at-least-two-points', Z(Gv.shape[1]) >= 2, node)
     return VArr(Gv.shape, dct1(Gv.t), 'core')
+
+
+# ----------------------------------------------------------------------------------------------
+# func_sum:  n_max = max(n);  p = 2. / (1 - np.arange(0, n_max, 2)**2);  v = np.array([[1.]]);
+#            for ak, bk, y, nk in zip(a, b, A, n):  v = v @ (p[:(nk + 1)//2] @ y[:, ::2]);  v *= (bk - ak) / 2.
+#
+# theory: every second mode slice, squares of integers (in the product abstraction mulI), the Clenshaw-Curtis chain
+
+cstep2 = z3.Function('cstep2', T.Core, T.Core)
+ccchain = z3.Function('ccchain', T.TT, RA, RA, RA, I, T.Mat)
+_av, _bv, _wv = z3.Const('a!fv', RA), z3.Const('b!fv', RA), z3.Const('w!fv', RA)
+
+
+T.GROUPS['cstep2'] = [
+    T.A([_G], z3.And(T.d0(cstep2(_G)) == T.d0(_G), T.d1(cstep2(_G)) == (T.d1(_G) + 1) / 2, T.d2(cstep2(_G)) == T.d2(_G)), [cstep2(_G)]),
+    T.A([_G, _k], z3.Implies(z3.And(0 <= _k, 2 * _k < T.d1(_G)), T.sl(cstep2(_G), _k) == T.sl(_G, 2 * _k)), [T.sl(cstep2(_G), _k)]),
+]
+T.GROUPS['isq'] = [
+    T.A([_k], z3.And(T.mulI(_k, _k) >= 0, z3.Implies(T.mulI(_k, _k) == 1, z3.Or(_k == 1, _k == -1)), z3.Implies(T.mulI(_k, _k) == 0, _k == 0)),
+        [T.mulI(_k, _k)]),
+]
+T.GROUPS['ccchain'] = [
+    T.A([T.Y_, _av, _bv, _wv], ccchain(T.Y_, _av, _bv, _wv, 0) == T.sc(1), [ccchain(T.Y_, _av, _bv, _wv, 0)]),
+    T.A([T.Y_, _av, _bv, _wv, _k, _k1], z3.Implies(z3.And(_k >= 0, _k1 == _k + 1),
+                                                   ccchain(T.Y_, _av, _bv, _wv, _k1)
+                                                   == T.smul((_bv[_k] - _av[_k]) / 2, T.mm(ccchain(T.Y_, _av, _bv, _wv, _k), T.wsum(cstep2(T.Y_[_k]), _wv)))),
+        [z3.MultiPattern(ccchain(T.Y_, _av, _bv, _wv, _k), ccchain(T.Y_, _av, _bv, _wv, _k1))]),
+]
+
+_orig_max = M.FUNCS['max']
+
+
+@model('max')
+def m_max_vec(ex, st, args, kwargs, node):
+    v = st.deref(args[0]) if len(args) == 1 else None
+    if on(ex) and not kwargs and is_vec(v, 'ivec'):
+        used('max(v) of a 1-D integer array -> an element of v that no element exceeds (requires a non-empty array)')
+        n = Z(v.shape[0])
+        ex.oblige(st, 'call-pre', 'max-of-a-non-empty-sequence', n >= 1, node)
+        mx, w = ex.fresh_int('max'), ex.fresh_int('argmax')
+        st.assume(0 <= w, w < n, v.t[w] == mx, z3.ForAll([_k], z3.Implies(z3.And(0 <= _k, _k < n), v.t[_k] <= mx), patterns=[v.t[_k]]))
+        st.ghost.setdefault('max_calls', []).append((v, mx))
+        return mx
+    return _orig_max(ex, st, args, kwargs, node)
+
+
+_orig_arange = M.FUNCS['np.arange']
+
+
+@model('np.arange')
+def m_arange_step(ex, st, args, kwargs, node):
+    if on(ex) and len(args) == 3 and not kwargs:
+        lo, hi, stp = [ex.need_num(st, a, node) for a in args]
+        if is_intsort(lo) and is_intsort(hi) and isinstance(stp, int) and not isinstance(stp, bool) and stp >= 1:
+            used('np.arange(lo, hi, step) for integers, step >= 1 -> the vector lo, lo + step, ... below hi; length ceil((hi - lo) / step)')
+            lo, hi = Z(lo), Z(hi)
+            n = z3.simplify(z3.If(hi > lo, (hi - lo + (stp - 1)) / stp, 0))
+            arr = ex.fresh('arange', IA)
+            st.assume(z3.ForAll([_k], arr[_k] == lo + stp * _k, patterns=[arr[_k]]))
+            return ivec(n, arr)
+    return _orig_arange(ex, st, args, kwargs, node)
+
+
+_orig_binop = M.arr_binop
+
+
+def arr_binop(ex, st, op, l, r, node):
+    if on(ex):
+        if isinstance(op, ast.Pow) and is_vec(l, 'ivec') and isinstance(r, int) and not isinstance(r, bool) and r == 2:
+            used('v ** 2 for an integer vector -> elementwise square (product abstraction mulI)')
+            arr = ex.fresh('isq', IA)
+            st.assume(z3.ForAll([_k], arr[_k] == T.mulI(l.t[_k], l.t[_k]), patterns=[arr[_k]]))
+            return ivec(l.shape[0], arr)
+        if isinstance(op, ast.Sub) and is_vec(r, 'ivec') and not isinstance(l, VArr) and is_num(l) and is_intsort(l):
+            used('c - v for an integer c and an integer vector v -> elementwise')
+            arr = ex.fresh('idiff', IA)
+            st.assume(z3.ForAll([_k], arr[_k] == Z(l) - r.t[_k], patterns=[arr[_k]]))
+            return ivec(r.shape[0], arr)
+        if isinstance(op, ast.Div) and is_vec(r, 'ivec') and not isinstance(l, VArr) and is_num(l):
+            used('c / v for a number c and an integer vector v -> elementwise true division; every element of v must be non-zero')
+            n = Z(r.shape[0])
+            ex.oblige(st, 'safety', 'elementwise-division-by-nonzero', z3.ForAll([_k], z3.Implies(z3.And(0 <= _k, _k < n), r.t[_k] != 0)), node)
+            arr = ex.fresh('quot', RA)
+            st.assume(z3.ForAll([_k], arr[_k] == to_real(l) / z3.ToReal(r.t[_k]), patterns=[arr[_k]]))
+            return rvec(r.shape[0], arr)
+    return _orig_binop(ex, st, op, l, r, node)
+
+
+M.arr_binop = arr_binop
+def _wrap_array(name):
+    orig = M.FUNCS[name]
+
+    def m_array_1x1(ex, st, args, kwargs, node):
+        v = st.deref(args[0]) if args else None
+        if on(ex) and len(args) == 1 and not kwargs and isinstance(v, VList) and len(v.items) == 1:
+            w = st.deref(v.items[0])
+            if isinstance(w, VList) and len(w.items) == 1 and is_num(w.items[0]) and not is_intsort(w.items[0]):
+                used('np.array([[x]]) for a float x -> the 1 x 1 matrix [[x]] (sc(x))')
+                return VArr((1, 1), T.sc(to_real(w.items[0])), 'mat')
+        return orig(ex, st, args, kwargs, node)
+    M.FUNCS[name] = m_array_1x1
+
+
+for _nm in ('np.array', 'np.asanyarray', 'np.asarray'):
+    _wrap_array(_nm)
+
+
+_orig_iter_of_value = M._iter_of_value
+
+
+def _iter_of_value(ex, st, v, node):
+    w = st.deref(v)
+    if on(ex) and is_vec(w, 'rvec'):
+        used('iteration over a 1-D float array -> its elements in order')
+        return Z(w.shape[0]), (lambda j, w=w: w.t[j]), False
+    return _orig_iter_of_value(ex, st, v, node)
+
+
+M._iter_of_value = _iter_of_value
+_orig_index = M.arr_index
+
+
+def arr_index(ex, st, a, sl_, node):
+    if on(ex) and isinstance(a, VArr) and a.ndim == 3 and a.tag == 'core' and a.t is not None and isinstance(sl_, ast.Tuple) and len(sl_.elts) == 2:
+        e0, e1 = sl_.elts
+        if _full(e0) and isinstance(e1, ast.Slice) and e1.lower is None and e1.upper is None and e1.step is not None:
+            stp = ex.ev(e1.step, st)
+            if isinstance(stp, int) and not isinstance(stp, bool) and stp == 2:
+                used('G[:, ::2] -> cstep2(G): the mode slices 0, 2, 4, ...; (n + 1) // 2 of them')
+                return VArr((a.shape[0], (Z(a.shape[1]) + 1) / 2, a.shape[2]), cstep2(a.t), 'core')
+    return _orig_index(ex, st, a, sl_, node)
+
+
+M.arr_index = arr_index
+_orig_matmul = M.matmul
+
+
+def matmul(ex, st, l, r, node):
+    if on(ex) and is_vec(l, 'rvec') and isinstance(r, VArr) and r.ndim == 3 and r.tag == 'core' and r.t is not None:
+        used('p @ G for a 1-D p and a 3-D G -> sum_m p[m] * G[:, m, :] (wsum); requires len(p) = n(G)')
+        ex.oblige(st, 'call-pre', 'matmul-inner-dims-agree', Z(l.shape[0]) == Z(r.shape[1]), node)
+        return VArr((r.shape[0], r.shape[2]), T.wsum(r.t, l.t), 'mat')
+    return _orig_matmul(ex, st, l, r, node)
+
+
+M.matmul = matmul
